@@ -165,7 +165,42 @@ def mutants_measures(prog: Program) -> list[tuple[str, str, str, str]]:
     return out
 
 
-SWEEPS = {"C12": mutants_purity, "C03": mutants_normalized, "C17": mutants_normalized, "C16": mutants_comparisons, "C20": mutants_closed_forms,
+SIBLINGS = {"a": "b", "b": "a", "m1": "m2", "m2": "m1", "d1": "d2", "d2": "d1", "t1": "t2", "t2": "t1", "a1": "a2", "b1": "b2", "c1": "c2", "u": "v", "v": "u"}
+
+
+def mutants_constructors(prog: Program) -> list[tuple[str, str, str, str]]:
+    """O9: in the transformation constructors every + / - and * / / exchanged, every unary minus dropped, every integer constant bumped,
+    every cos/sin exchanged, every local replaced by its sibling (m1/m2, d1/d2, ...), every index -1 replaced by 0"""
+    out = []
+    names = {"affine_transform", "rotation", "translation", "scaling", "reflection", "from_points", "from_points_and_conics"}
+    for m in prog.modules.values():
+        if not m.rel.endswith("transformation.py"):
+            continue
+        src = m.source
+        for fn in _functions_named(m, names):
+            doc = ast.get_docstring(fn)
+            for node in ast.walk(fn):
+                where = f"{m.rel}:{getattr(node, 'lineno', fn.lineno)}: {fn.name}"
+                if isinstance(node, ast.BinOp) and isinstance(node.op, (ast.Add, ast.Sub, ast.Mult, ast.Div)):
+                    l, r = ast.get_source_segment(src, node.left), ast.get_source_segment(src, node.right)
+                    if l and r:
+                        op = {ast.Add: "-", ast.Sub: "+", ast.Mult: "/", ast.Div: "*"}[type(node.op)]
+                        out.append(("O9 arithmetic operator exchanged", m.rel, f"{where}: {ast.unparse(node)[:50]} -> {op}", _replace(src, node, f"{l} {op} {r}")))
+                if isinstance(node, ast.UnaryOp) and isinstance(node.op, ast.USub) and not isinstance(node.operand, ast.Constant):
+                    inner = ast.get_source_segment(src, node.operand)
+                    if inner:
+                        out.append(("O9 unary minus dropped", m.rel, f"{where}: {ast.unparse(node)[:50]}", _replace(src, node, inner)))
+                if isinstance(node, ast.Constant) and isinstance(node.value, int) and not isinstance(node.value, bool) and (doc is None or node.value != doc):
+                    out.append(("O9 integer constant + 1", m.rel, f"{where}: {node.value} -> {node.value + 1}", _replace(src, node, str(node.value + 1))))
+                if isinstance(node, ast.Attribute) and node.attr in ("cos", "sin") and isinstance(node.value, ast.Name) and node.value.id == "np":
+                    other = "sin" if node.attr == "cos" else "cos"
+                    out.append(("O9 cos/sin exchanged", m.rel, f"{where}: np.{node.attr} -> np.{other}", _replace(src, node, f"np.{other}")))
+                if isinstance(node, ast.Name) and isinstance(node.ctx, ast.Load) and node.id in SIBLINGS and fn.name in ("from_points", "from_points_and_conics", "rotation"):
+                    out.append(("O9 local replaced by its sibling", m.rel, f"{where}: {node.id} -> {SIBLINGS[node.id]} (col {node.col_offset})", _replace(src, node, SIBLINGS[node.id])))
+    return out
+
+
+SWEEPS = {"C08": mutants_constructors, "C12": mutants_purity, "C03": mutants_normalized, "C17": mutants_normalized, "C16": mutants_comparisons, "C20": mutants_closed_forms,
           "C13": mutants_measures}
 
 
